@@ -155,6 +155,10 @@ TYPE_CASES = [
     (None, '::core::option::Option<(u8, [u16; 2])>', 'Box<dyn Fn(u8) -> u8 + Send + Sync>', '&\'static [u8]', '&[1u8, 2u8]', None),
     # a borrowed context that implements Default, unit data (a slot used as a presence marker), a borrowed payload
     ("&'static str", '()', "&'static [u8]", "&'static str", '"p"', '&[1u8]'),
+    # a unit payload is still a payload: the method takes it, the variant carries it, the hooks are handed a reference to it
+    (None, 'u8', 'u16', '()', '()', '2u16'),
+    # a unit context spelled out as the concrete context type
+    ('()', 'u8', 'u16', 'u32', '3u32', '2u16'),
 ]
 
 
